@@ -270,10 +270,15 @@ func (dec *xmlDecoder) decodeXML(root *xmlNode) error {
 			log.Debug("start element %v", se.Name.Local)
 			elem.state = "started"
 			// Build new a new current element and link it to its parent
+			label := se.Name.Local
+			if dec.prefs.KeepNamespace && dec.prefs.UseRawToken && se.Name.Space != "" {
+				// raw tokens carry the prefix as written: keep it, as for attributes (s:Body and t:Body are different elements)
+				label = se.Name.Space + ":" + label
+			}
 			elem = &element{
 				parent: elem,
 				n:      &xmlNode{},
-				label:  se.Name.Local,
+				label:  label,
 			}
 
 			// Extract attributes as children
